@@ -224,6 +224,9 @@ def run(rep, tier):
                    "(constant, or enumerated over the 3.11+ operator table) has the right placeholders and escapes every other '%'")
     rep.rule("R7", "a parameter whose default is None and that some listing path really leaves at None (omitted, None passed, the caller's own optional handed on; "
                    "least fixpoint over the reachable call sites) is tested for None before every use that needs a value (attribute, index, `in`, iteration, call, arithmetic)")
+    rep.rule("R8", "every operand formatter registered in a table's opcode_arg_fmt returns a string for each operand value the compiler of that table's versions can emit "
+                   "(RAISE_VARARGS 0-3 in Python 1/2 and 0-2 in 3, IS_OP / CONTAINS_OP / CALL_FUNCTION_EX 0-1, FORMAT_VALUE 0-7, MAKE_FUNCTION 0-15 from 3.6, BINARY_OP 0-25, "
+                   "the intrinsic numbers, sample magnitudes elsewhere); evaluated by the folder on those finite domains")
     rep.rule("R5", "the instruction records the listing renders are the decoder's: per (opcode table, opcode) the offset/width/operand (C02 rules), "
                    "the operand value and text (C03 rules) and the jump target and label set (C04 rules) agree with Lib/dis.py of that version")
     T = tables()
@@ -269,6 +272,58 @@ def run(rep, tier):
                        p_, why.get((q, p_), "public operation, the argument is optional"), hits_[0][0] if hits_ else ""))
     rep.floor("optional parameters that can be None on a listing path", len([1 for (q, p_) in maybe if q in nseen]), 20)
     rep.floor("None-guarded uses of such parameters", n_guarded, 6)
+    # ---------------------------------------------------------------- R8 operand formatters are total on the operands the compiler emits
+    from ..fold import FoldError, FuncRef as _FR, PyExc
+    GENERIC = (0, 1, 2, 3, 255, 256, 257, 65535)
+
+    def domain(opname, v):
+        if opname == "RAISE_VARARGS":
+            return range(0, 4) if v < (3, 0) else range(0, 3)
+        if opname in ("IS_OP", "CONTAINS_OP", "CALL_FUNCTION_EX"):
+            return (0, 1)
+        if opname == "FORMAT_VALUE":
+            return range(0, 8)
+        if opname == "MAKE_FUNCTION" and v >= (3, 6):
+            return range(0, 16)
+        if opname in ("MAKE_FUNCTION", "MAKE_CLOSURE"):
+            return (0, 1, 2, 255) if v < (3, 0) else (0, 1, 2, 255, 256, 0x101, 0x10000, 0x10101, 0x7FFF0000)
+        if opname == "BINARY_OP":
+            return range(0, 26)
+        if opname == "CALL_INTRINSIC_1":
+            return range(1, 12)
+        if opname == "CALL_INTRINSIC_2":
+            return range(1, 5)
+        return GENERIC
+    n_fmt = 0
+    done_fmt = {}
+    for mname, mod in sorted(T.reachable.items()):
+        fmts = mod.ns.get("opcode_arg_fmt")
+        if not isinstance(fmts, dict):
+            continue
+        v = tuple(mod.ns["version_tuple"][:2])
+        for opn, ff in sorted(fmts.items()):
+            if not isinstance(ff, _FR) or opn not in mod.ns["opmap"]:
+                continue
+            dom = tuple(domain(opn, v))
+            key = (ff.qualname, opn, dom)
+            if key in done_fmt:
+                done_fmt[key].append(mname.split(".")[-1])
+                continue
+            done_fmt[key] = [mname.split(".")[-1]]
+            badv = []
+            for a_ in dom:
+                try:
+                    r_ = F.apply(ff, [a_], {})
+                    if not isinstance(r_, str):
+                        badv.append("%d -> %r" % (a_, r_))
+                except (PyExc, FoldError) as ex:
+                    badv.append("%d raises %s" % (a_, str(ex)[:40]))
+            n_fmt += 1
+            rep.ob("R8", ff.qualname, "total:%s@%s" % (opn, "py2" if v < (3, 0) else "py3"), not badv, expected="a string for every operand in %s" % (list(dom) if len(dom) < 12 else "%d..%d" % (dom[0], dom[-1])),
+                   derived=badv[:4] or "strings", where="%s:%d" % (ff.module.replace(".", "/") + ".py" if hasattr(ff, "module") and isinstance(ff.module, str) else "", ff.node.lineno),
+                   msg="the operand formatter of %s (first table: %s) fails for an operand the compiler emits (%s): every listing format aborts on such an instruction" % (
+                       opn, mname.split(".")[-1], "; ".join(badv[:2])))
+    rep.floor("operand formatters evaluated on their operand domains", n_fmt, 20)
     # ---------------------------------------------------------------- R1
     # printing is the *contract* of these (they print the text they are asked to show); they are reached only through name-based resolution
     contract = {"xdis.std._StdApi._print", "xdis.cross_dis.show_code"}
